@@ -1,4 +1,5 @@
 import TonicModel.Basic.ConnScript
+import TonicModel.Basic.ErrChain
 /-
 Oracle for C14, written from the property text and independent of `Model/Reconnect`:
 what a caller may observe from a channel under a fault script.  Every definition here speaks
@@ -94,20 +95,55 @@ def isResp : CallRes → Bool
   | .hang => false
   | .panic => false
   | .garbled => false
+  | .expired => false
+  | .lost _ => false
+
+/-- Did the call get as far as a live connection: answered, or — for the kinds of call that
+cannot be answered — ended the way that kind ends once it is on a connection. -/
+def served (k : CallKind) : CallRes → Bool
+  | .resp _ => true
+  | .expired => k == .zeroDeadline
+  | .lost _ => k == .peerDies
+  | .error _ _ => false
+  | .hang => false
+  | .panic => false
+  | .garbled => false
 
 /-- The clauses one observed call must satisfy, given the oracle state before it. -/
-def callClauses (outs : List Outcome) (s : St) (res : CallRes) (a' : Nat) : List (String × Bool) :=
+def callClauses (outs : List Outcome) (s : St) (k : CallKind) (res : CallRes) (a' : Nat) : List (String × Bool) :=
   [ ("definite-result",
       match res with
       | .resp _ => true
       | .error _ _ => true
+      | .expired => true
+      | .lost _ => true
       | .hang => false
       | .panic => false
       | .garbled => false),
     ("attempts-monotone", decide (s.a ≤ a')),
+    ("result-fits-the-call",
+      match res with
+      | .expired => k == .zeroDeadline
+      | .lost _ => k == .peerDies
+      | .resp _ => true
+      | .error _ _ => true
+      | .hang => true
+      | .panic => true
+      | .garbled => true),
     ("response-from-a-live-connection",
       match res with
       | .resp c => s.live == some c || (decide (s.a < c) && decide (c ≤ a') && (outcomeAt outs c).connects)
+      | .lost c => s.live == some c || (decide (s.a < c) && decide (c ≤ a') && (outcomeAt outs c).connects)
+      | .expired => true
+      | .error _ _ => true
+      | .hang => true
+      | .panic => true
+      | .garbled => true),
+    ("deadline-expiry-only-on-a-connection",
+      match res with
+      | .expired => s.live.isSome || (decide (s.a < a') && (outcomeAt outs a').connects)
+      | .resp _ => true
+      | .lost _ => true
       | .error _ _ => true
       | .hang => true
       | .panic => true
@@ -116,6 +152,8 @@ def callClauses (outs : List Outcome) (s : St) (res : CallRes) (a' : Nat) : List
       match res with
       | .error code _ => code == unavailable
       | .resp _ => true
+      | .expired => true
+      | .lost _ => true
       | .hang => true
       | .panic => true
       | .garbled => true),
@@ -123,6 +161,8 @@ def callClauses (outs : List Outcome) (s : St) (res : CallRes) (a' : Nat) : List
       match res with
       | .error _ _ => s.live.isNone && decide (s.a < a') && !anyConnects outs s.a a'
       | .resp _ => true
+      | .expired => true
+      | .lost _ => true
       | .hang => true
       | .panic => true
       | .garbled => true),
@@ -131,30 +171,61 @@ def callClauses (outs : List Outcome) (s : St) (res : CallRes) (a' : Nat) : List
       | .error _ (some k) => decide (s.a < k) && decide (k ≤ a') && !(outcomeAt outs k).connects
       | .error _ none => true
       | .resp _ => true
+      | .expired => true
+      | .lost _ => true
       | .hang => true
       | .panic => true
       | .garbled => true),
     ("call-succeeds-when-endpoint-reachable",
-      !(s.live.isSome || (outcomeAt outs (s.a + 1)).connects) || isResp res) ]
+      !(s.live.isSome || (outcomeAt outs (s.a + 1)).connects) || served k res) ]
 
-def nextSt (res : CallRes) (a' : Nat) : St :=
+/-- The oracle state after a call: which connection is up. A deadline expiry leaves the
+connection it happened on in place (the one that was up, else the one this call made). -/
+def nextSt (s : St) (res : CallRes) (a' : Nat) : St :=
   { live := match res with
       | .resp c => some c
+      | .expired => if s.live.isSome then s.live else some a'
+      | .lost _ => none
       | .error _ _ => none
       | .hang => none
       | .panic => none
       | .garbled => none,
     a := a' }
 
+/-- Two callers at the same moment: the channel queues them, so what they see must be what two
+calls one right after the other (no fault in between) may see — for some split of the connection
+attempts made meanwhile between the two. In particular the two cannot both be handed the failure
+of the same attempt, and the second one is served if the endpoint is reachable when its turn
+comes. -/
+def pairOk (outs : List Outcome) (s : St) (ra rb : CallRes) (a' : Nat) : Bool :=
+  (List.range (a' - s.a + 1)).any fun d =>
+    (callClauses outs s .plain ra (s.a + d) ++
+      callClauses outs (nextSt s ra (s.a + d)) .plain rb a').all (·.2)
+
 def evClauses (outs : List Outcome) : St → List Op → List Ev → List (String × Bool)
   | _, [], [] => []
   | s, .die :: ops, .die :: evs => evClauses outs { s with live := none } ops evs
   | s, .call :: ops, .call res a' :: evs =>
-    callClauses outs s res a' ++ evClauses outs (nextSt res a') ops evs
+    callClauses outs s .plain res a' ++ evClauses outs (nextSt s res a') ops evs
+  | s, .callZero :: ops, .call res a' :: evs =>
+    callClauses outs s .zeroDeadline res a' ++ evClauses outs (nextSt s res a') ops evs
+  | s, .callDie :: ops, .call res a' :: evs =>
+    callClauses outs s .peerDies res a' ++ evClauses outs (nextSt s res a') ops evs
+  | s, .pair :: ops, .pair ra rb a' :: evs =>
+    ("concurrent-calls-explainable-in-queue-order", pairOk outs s ra rb a') ::
+      evClauses outs (nextSt (nextSt s ra a') rb a') ops evs
   | _, [], _ :: _ => [("trace-shape", false)]
   | _, _ :: _, [] => [("trace-shape", false)]
   | _, .die :: _, .call _ _ :: _ => [("trace-shape", false)]
+  | _, .die :: _, .pair _ _ _ :: _ => [("trace-shape", false)]
   | _, .call :: _, .die :: _ => [("trace-shape", false)]
+  | _, .call :: _, .pair _ _ _ :: _ => [("trace-shape", false)]
+  | _, .callZero :: _, .die :: _ => [("trace-shape", false)]
+  | _, .callZero :: _, .pair _ _ _ :: _ => [("trace-shape", false)]
+  | _, .callDie :: _, .die :: _ => [("trace-shape", false)]
+  | _, .callDie :: _, .pair _ _ _ :: _ => [("trace-shape", false)]
+  | _, .pair :: _, .die :: _ => [("trace-shape", false)]
+  | _, .pair :: _, .call _ _ :: _ => [("trace-shape", false)]
 
 /-- The connection that is up after `a` attempts made while building the channel. -/
 def liveAfter (outs : List Outcome) (a : Nat) : Option Nat :=
@@ -263,5 +334,109 @@ def unitClauses (env : List Ans) (os : List UnitObs) : List (String × Bool) :=
       | .cpending => true
       | .callPanic => true),
     ("errors-are-failures-reported-once", (unitErrs os).isSublist (failures env)) ]
+
+/-! ### the class of a connection failure -/
+
+/-- Is this error the failure of a connection attempt?  It is if a connect error sits in its
+source chain beneath nothing but wrappers that carry no gRPC meaning of their own (a transport
+error, an I/O error, a user's error type).  What caused the connect error does not matter. -/
+def isConnectFailure : List ErrChain.Node → Bool
+  | [] => false
+  | .connectError :: _ => true
+  | n :: rest => n.plain && isConnectFailure rest
+
+/-- "an UNAVAILABLE-class error while no connection can be made": whatever made the attempt fail,
+the status a caller derives from the error is UNAVAILABLE. -/
+def classClauses (chain : List ErrChain.Node) (code : Nat) : List (String × Bool) :=
+  [ ("error-is-unavailable-class", !isConnectFailure chain || code == unavailable) ]
+
+/-! ### scripts over a real network endpoint -/
+
+/-- What the oracle tracks: is a server listening, how many servers have been started, and the
+generation of the server that holds a live connection with the channel. -/
+structure NSt where
+  up : Bool
+  gen : Nat
+  live : Option Nat
+deriving DecidableEq, Repr
+
+/-- The environment's own steps. -/
+def NSt.env (s : NSt) : NOp → NSt
+  | .up => if s.up then s else { s with up := true, gen := s.gen + 1 }
+  | .down => { s with up := false, live := none }
+  | .call => s
+
+/-- The clauses one observed call must satisfy. -/
+def netCallClauses (s : NSt) (res : NRes) : List (String × Bool) :=
+  [ ("definite-result",
+      match res with
+      | .resp _ => true
+      | .error _ => true
+      | .hang => false
+      | .garbled => false),
+    ("response-from-a-live-connection",
+      match res with
+      | .resp g => s.live == some g || (s.live.isNone && s.up && g == s.gen)
+      | .error _ => true
+      | .hang => true
+      | .garbled => true),
+    ("error-is-unavailable-class",
+      match res with
+      | .error code => code == unavailable
+      | .resp _ => true
+      | .hang => true
+      | .garbled => true),
+    ("error-only-while-no-connection-can-be-made",
+      match res with
+      | .error _ => s.live.isNone && !s.up
+      | .resp _ => true
+      | .hang => true
+      | .garbled => true),
+    ("call-succeeds-when-endpoint-reachable",
+      !(s.live.isSome || s.up) ||
+        (match res with
+         | .resp _ => true
+         | .error _ => false
+         | .hang => false
+         | .garbled => false)) ]
+
+def netNext (s : NSt) (res : NRes) : NSt :=
+  { s with live := match res with
+      | .resp g => some g
+      | .error _ => none
+      | .hang => none
+      | .garbled => none }
+
+def netEvClauses : NSt → List NOp → List NRes → List (String × Bool)
+  | _, [], [] => []
+  | _, [], _ :: _ => [("trace-shape", false)]
+  | s, .up :: ops, evs => netEvClauses (s.env .up) ops evs
+  | s, .down :: ops, evs => netEvClauses (s.env .down) ops evs
+  | _, .call :: _, [] => [("trace-shape", false)]
+  | s, .call :: ops, res :: evs => netCallClauses s res ++ netEvClauses (netNext s res) ops evs
+
+/-- All clauses for one observed run: `pre` are the environment's steps before the channel is
+built (no calls among them), `post` the steps after. A lazy channel is built without
+connecting; an eager one (`Endpoint::connect`) connects first: with a server listening that
+succeeds, without one it must fail at once with an UNAVAILABLE-class error — not hand out a
+channel. -/
+def netClauses (isLazy : Bool) (pre post : List NOp) (t : NTrace) : List (String × Bool) :=
+  let s0 : NSt := pre.foldl NSt.env { up := false, gen := 0, live := none }
+  if isLazy then
+    ("lazy-build-succeeds", t.build == .ok) :: netEvClauses s0 post t.evs
+  else if s0.up then
+    ("eager-build-succeeds", t.build == .ok) :: netEvClauses { s0 with live := some s0.gen } post t.evs
+  else
+    [ ("eager-initial-failure-reported-by-connect",
+        match t.build with
+        | .error _ => true
+        | .ok => false
+        | .hang => false),
+      ("error-is-unavailable-class",
+        match t.build with
+        | .error code => code == unavailable
+        | .ok => true
+        | .hang => true),
+      ("no-call-without-a-channel", t.evs.isEmpty) ]
 
 end Spec.Reconnect
